@@ -5,6 +5,7 @@ import (
 	"flag"
 	"fmt"
 	"os"
+	"runtime/pprof"
 	"sort"
 	"time"
 
@@ -44,6 +45,7 @@ func cmdRun(args []string) int {
 	nomerge := fs.Bool("nomerge", false, "disable if-conversion of pure branch regions")
 	rev := fs.Bool("reverse-maps", false, "iterate maps in reverse insertion order")
 	maxsecs := fs.Int("maxsecs", 300, "wall-clock budget (seconds)")
+	cpuprof := fs.String("cpuprofile", "", "write a CPU profile")
 	fs.Parse(args)
 	t0 := time.Now()
 	p, err := exec.Load(*repo, *pkg, *hdir)
@@ -69,6 +71,11 @@ func cmdRun(args []string) int {
 		return 2
 	}
 	x := &exec.Explorer{P: p, Harness: h, NWorker: *workers, Solver: *solver, Timeout: *timeout, Tier: *tier, Trace: *trace, MaxStep: *maxsteps, Reverse: *rev, NoMerge: *nomerge, Progress: true}
+	if *cpuprof != "" {
+		f, _ := os.Create(*cpuprof)
+		pprof.StartCPUProfile(f)
+		defer pprof.StopCPUProfile()
+	}
 	x.Deadline = time.Now().Add(time.Duration(*maxsecs) * time.Second)
 	t1 := time.Now()
 	st, err := x.Run()
@@ -98,6 +105,3 @@ func cmdRun(args []string) int {
 	}
 	return 0
 }
-
-
-
